@@ -28,18 +28,27 @@ Theorem never_reserved off e :
   59 <= off -> e + off < two32 -> encode off e <> 58 /\ encode off e <> 0.
 Proof. intros Ho H; rewrite encode_small by exact H; lia. Qed.
 
-Theorem representable_below_55237 e : e < 55237 -> representable 59 e = true.
+Theorem representable_below_55237 sur e : e < 55237 -> representable sur 59 e = true.
 Proof.
 intros H; unfold representable, valid_cp. pose proof two32_val as T.
-rewrite !andb_true_iff, orb_true_iff, !N.ltb_lt. lia.
+rewrite !andb_true_iff, !orb_true_iff, !N.ltb_lt. lia.
 Qed.
 
-Theorem surrogates_unrepresentable e : 55237 <= e -> e <= 57284 -> representable 59 e = false.
+Theorem surrogates_unrepresentable e : 55237 <= e -> e <= 57284 -> representable false 59 e = false.
 Proof.
 intros H1 H2; unfold representable, valid_cp.
 destruct (59 <? two32) eqn:?; destruct (e + 59 <? two32) eqn:?; destruct (0 <? e + 59) eqn:?;
 destruct (e + 59 <? 55296) eqn:?; destruct (57344 <=? e + 59) eqn:?; destruct (e + 59 <=? 1114111) eqn:?;
 simpl; try reflexivity; lia.
+Qed.
+
+(* on a numpy that takes surrogates as field names every exponent up to 0x10FFFF - 59 is representable *)
+Theorem surrogates_representable e : e <= 1114052 -> representable true 59 e = true.
+Proof.
+intros H; unfold representable, valid_cp. pose proof two32_val as T.
+destruct (e + 59 <? two32) eqn:?; destruct (0 <? e + 59) eqn:?;
+destruct (e + 59 <? 55296) eqn:?; destruct (e + 59 <? 57344) eqn:?; destruct (57344 <=? e + 59) eqn:?;
+destruct (e + 59 <=? 1114111) eqn:?; simpl; try reflexivity; lia.
 Qed.
 
 (* ---- rows ------------------------------------------------------------------------------ *)
